@@ -184,6 +184,8 @@ def readCb (s : Bytes) : Except Err (Cb × Bytes) :=
     let t := p.getD 0 0; let rc := p.getD 1 0; let sz := p.getD 2 0; let cat := p.getD 3 0
     let mn := (p.drop 4).take 4; let un := (p.drop 8).take 4
     if rc = 65 then
+      -- `readRepCode(...) if self.size else b''`: a zero-length text cell is `b''` also at the end of the record
+      if sz = 0 then .ok (⟨t, rc, sz, cat, mn, un, some (.bytes [])⟩, r) else
       match readLr sz r with
       | (v, r') => .ok (⟨t, rc, sz, cat, mn, un, v.map Val.bytes⟩, r')
     else
@@ -271,7 +273,7 @@ def indexLast (st : TS) : Except Err TS :=
       | some c =>
         match c.val with
         | some (.bytes b) => .ok { st1 with mnemIdx := assocSet (mnemNorm b) idx st1.mnemIdx }
-        | _ => .error .typeErr      -- Mnem.Mnem(None | int | float): len() raises TypeError, not caught
+        | _ => .ok st1              -- Mnem.Mnem(None | int | float) raises TypeError: caught, row not in the Mnem map
 
 /-- `LrTable.startNewRow` -/
 def startNewRow (cb : Cb) (st : TS) : Except Err TS :=
